@@ -127,8 +127,15 @@ def gen(depth):
 
 def spaces(tier):
     if tier == "quick":
+        from . import c05 as _c05
+        def gen3i():
+            for ch in progs.chains(3, _c05.INTERACT):
+                if len(ch) == 3:
+                    yield ch
         return [Space("chains-depth2", gen(2), check, variant="fast",
-                      describe="every template alone and every template inside every other (52 + 52^2 programs)")]
+                      describe="every template alone and every template inside every other"),
+                Space("chains-depth3-interacting", gen3i, check, variant="fast",
+                      describe="all depth-3 chains over the frame-interacting templates")]
     from . import c05
     def gen4():
         for ch in progs.chains(4, c05.INTERACT):
